@@ -43,22 +43,22 @@ package ast
 //@   props C17
 //@   nosafety
 //@   stringsexact
-//@   modifies *
+//@   pure
 //@   ensures[operator-operands-are-parenthesised;C17] isOperator(n) ==> len(result) >= 2 && result[0] == '(' && result[len(result)-1] == ')'
 //@ func (*BinaryOpNode).String
 //@   props C17
 //@   nosafety
-//@   modifies *
+//@   pure
 //@   at call ast.Node.String#* forbid[operands-printed-through-operandString;C17] false
 //@ func (*NotNode).String
 //@   props C17
 //@   nosafety
-//@   modifies *
+//@   pure
 //@   at call ast.Node.String#* forbid[operands-printed-through-operandString;C17] false
 //@ func (*NegateNode).String
 //@   props C17
 //@   nosafety
-//@   modifies *
+//@   pure
 //@   at call ast.Node.String#* forbid[operands-printed-through-operandString;C17] false
 //@ func (*StringNode).String
 //@   props C17
@@ -72,9 +72,10 @@ package ast
 // followed by '[' or '.' is not read as a null-safe access).
 //@ func (*FloatNode).String
 //@   props C17
+//@   inline
 //@   nosafety
 //@   stringsexact
-//@   modifies *
+//@   pure
 //@   ghost digits string = ""
 //@   at call strconv.FormatFloat#0 after set digits = res
 //@   ensures[float-text-has-fraction-or-exponent;C17] exists(i, 0, len(result), result[i] == '.' || result[i] == 'e' || result[i] == 'E' || result[i] == 'N' || result[i] == 'I')
@@ -83,7 +84,7 @@ package ast
 //@   props C17
 //@   nosafety
 //@   stringsexact
-//@   modifies *
+//@   pure
 //@   ghost o1 string = ""
 //@   ghost o2 string = ""
 //@   ghost o3 string = ""
